@@ -186,5 +186,5 @@ def make(tier):
     P.generated['c04s.spec'] = sspec
     us = P.unit('seq', 'seq.cpp', specs=['c04s.spec'], inline=True)
     for f, (req, asg, ens, what) in S.items():
-        us.contract(f, cls='W', unwind=6, backends=['sat', 'cvc5'], what=what, native=False, timeout=600, bound='fixed-capacity source and result containers with symbolic size <= 3: loops bounded by the capacity, unwinding assertions on')
+        us.contract(f, cls='W', unwind=6, backends=['sat', 'cvc5'], what=what, timeout=600, bound='fixed-capacity source and result containers with symbolic size <= 3: loops bounded by the capacity, unwinding assertions on')
     return P
